@@ -44,6 +44,23 @@ static int helds(int i) { return i >= 0 && i < nS && Sref[i] > 0 && alive(S[i]);
 static int heldb(int i) { return i >= 0 && i < nB && Bref[i] > 0 && alive(B[i]); }
 static int heldt(void)  { return tt_refs > 0 && alive(tt); }
 
+/* the window still belongs to the tree: its parent chain reaches the root window.  tickit_window_close(3):
+ * "After this is done the only operation that is defined any more is tickit_window_unref" -- the harness
+ * (a well-behaved application) issues nothing but ref/unref/close on a window that is closed or lies
+ * below a closed one */
+static int attached(int i)
+{
+  TickitWindow *w = W[i];
+  for(int guard = 0; guard < 2 * MAXO; guard++) {
+    if(!alive(w)) return 0;
+    if(w == W[0]) return 1;
+    w = tickit_window_parent(w);
+    if(!w) return 0;
+  }
+  return 0;
+}
+static int usable(int i) { return heldw(i) && attached(i); }
+
 static int widx(const TickitWindow *w)
 {
   for(int i = 0; i < nW; i++) if(W[i] == w) return i;
@@ -87,15 +104,15 @@ static const char *simple_op(char kind, int i, struct beh *self)
     case 'u': if(!heldw(i)) return "skip"; Wref[i]--; tickit_window_unref(W[i]); return "ok";
     case 'r': if(!heldw(i)) return "skip"; Wref[i]++; tickit_window_ref(W[i]); return "ok";
     case 'c': if(!heldw(i)) return "skip"; tickit_window_close(W[i]); return "ok";
-    case 'R': if(!heldw(i)) return "skip"; tickit_window_raise(W[i]); return "ok";
-    case 'F': if(!heldw(i)) return "skip"; tickit_window_raise_to_front(W[i]); return "ok";
-    case 'L': if(!heldw(i)) return "skip"; tickit_window_lower(W[i]); return "ok";
-    case 'B': if(!heldw(i)) return "skip"; tickit_window_lower_to_back(W[i]); return "ok";
-    case 'h': if(!heldw(i)) return "skip"; tickit_window_hide(W[i]); return "ok";
-    case 's': if(!heldw(i)) return "skip"; tickit_window_show(W[i]); return "ok";
+    case 'R': if(!usable(i)) return "skip"; tickit_window_raise(W[i]); return "ok";
+    case 'F': if(!usable(i)) return "skip"; tickit_window_raise_to_front(W[i]); return "ok";
+    case 'L': if(!usable(i)) return "skip"; tickit_window_lower(W[i]); return "ok";
+    case 'B': if(!usable(i)) return "skip"; tickit_window_lower_to_back(W[i]); return "ok";
+    case 'h': if(!usable(i)) return "skip"; tickit_window_hide(W[i]); return "ok";
+    case 's': if(!usable(i)) return "skip"; tickit_window_show(W[i]); return "ok";
     case 'f': if(!heldw(0)) return "skip"; tickit_window_flush(W[0]); return "ok";
     case 'x':
-      if(!self || !self->used || !heldw(self->w)) return "skip";
+      if(!self || !self->used || !usable(self->w)) return "skip";
       self->used = 0;
       tickit_window_unbind_event_id(W[self->w], self->id);
       return "ok";
@@ -211,7 +228,7 @@ static void engine_op(int argc, char **argv)
 
   if(strcmp(op, "win") == 0 && argc == 7) {
     int p = A(1);
-    if(!heldw(p) || nW >= MAXO) { obs("skip"); dump(); return; }
+    if(!usable(p) || nW >= MAXO) { obs("skip"); dump(); return; }
     int f = A(6), flags = 0;
     if(f & 1) flags |= TICKIT_WINDOW_HIDDEN;
     if(f & 2) flags |= TICKIT_WINDOW_LOWEST;
@@ -233,25 +250,25 @@ static void engine_op(int argc, char **argv)
     }
   if(strcmp(op, "geom") == 0 && argc == 6) {
     int i = A(1);
-    if(!heldw(i)) { obs("skip"); dump(); return; }
+    if(!usable(i)) { obs("skip"); dump(); return; }
     tickit_window_set_geometry(W[i], (TickitRect){ .top = A(2), .left = A(3), .lines = A(4), .cols = A(5) });
     obs("ok"); dump(); return;
   }
   if(strcmp(op, "focus") == 0) {
     int i = A(1);
-    if(!heldw(i)) { obs("skip"); dump(); return; }
+    if(!usable(i)) { obs("skip"); dump(); return; }
     tickit_window_take_focus(W[i]);
     obs("ok"); dump(); return;
   }
   if(strcmp(op, "expose") == 0) {
     int i = A(1);
-    if(!heldw(i)) { obs("skip"); dump(); return; }
+    if(!usable(i)) { obs("skip"); dump(); return; }
     tickit_window_expose(W[i], NULL);
     obs("ok"); dump(); return;
   }
   if(strcmp(op, "bind") == 0 && argc >= 4) {
     int i = A(1);
-    if(!heldw(i) || nBEH >= MAXB) { obs("skip"); dump(); return; }
+    if(!usable(i) || nBEH >= MAXB) { obs("skip"); dump(); return; }
     struct beh *b = &BEH[nBEH++];
     b->used = 1; b->w = i; b->ev = strcmp(argv[2], "mouse") == 0; b->ret = A(3); b->nacts = 0;
     for(int k = 4; k < argc && b->nacts < MAXA; k++) {
@@ -264,7 +281,7 @@ static void engine_op(int argc, char **argv)
   }
   if(strcmp(op, "unbind") == 0 && argc == 3) {
     int i = A(1);
-    if(!heldw(i)) { obs("skip"); dump(); return; }
+    if(!usable(i)) { obs("skip"); dump(); return; }
     for(int k = 0; k < nBEH; k++) if(BEH[k].used && BEH[k].w == i && BEH[k].id == A(2)) BEH[k].used = 0;
     tickit_window_unbind_event_id(W[i], A(2));
     obs("ok"); dump(); return;
@@ -304,7 +321,7 @@ static void engine_op(int argc, char **argv)
   }
   if(strcmp(op, "setpen") == 0 && argc == 3) {
     int i = A(1);
-    if(!heldw(i)) { obs("skip"); dump(); return; }
+    if(!usable(i)) { obs("skip"); dump(); return; }
     if(strcmp(argv[2], "-") == 0) tickit_window_set_pen(W[i], NULL);
     else {
       int p = A(2);
